@@ -370,7 +370,7 @@ class Ctx:
         The shared package /verif/harness/x is always mounted as <module>/internal/verifx."""
         gobin, genv = go_tool()
         overlay = {}
-        pkgdir = os.path.join(REPO, pkg)
+        pkgdir = os.path.normpath(os.path.join(REPO, pkg))
         for f in files:
             src = os.path.join(HARNESS, f)
             overlay[os.path.join(pkgdir, "zz_verif_" + os.path.basename(f))] = src
